@@ -166,6 +166,8 @@ type speccScn struct {
 	ctx    bool     // the statement carries a cancelable context
 	pre    bool     // … which is cancelled BEFORE the statement is executed
 	dl     bool     // … which ends by its deadline (context.DeadlineExceeded) instead of being cancelled
+	early  bool     // long speculative delay, stepping starts as soon as the main execution is there: the result (or the
+	// end of the context) finds the executor still waiting for its ticker, the other executions are never started
 	plan   []string // steps tried first (skipped when not enabled): L<i> C<i>:<fate> D<i> X
 	okPct  int      // how often a held request is answered with success
 	xPct   int      // how often (per step) the caller's context is cancelled
@@ -258,6 +260,9 @@ func runSpecCancel(c speccScn, r *vh.Rng) string {
 		}
 	}
 	delay := time.Duration(20+r.Intn(200)) * time.Microsecond
+	if c.early {
+		delay = 150 * time.Millisecond
+	}
 	st := specStmt(s, c.kind, c.idem, &gocql.SimpleSpeculativeExecution{NumAttempts: c.a, TimeoutDelay: delay}, makePolicy(c.policy))
 	rec := &idxRec{}
 	obs := &gateObs{p: pol}
@@ -561,11 +566,13 @@ func runSpecCancel(c speccScn, r *vh.Rng) string {
 
 	// the executions the policy allows arrive at their first NextHost call (main at once, the others on the ticker)
 	want := maxExecutions(specIdempotent(c.idem), c.a)
-	if cancelled {
+	if cancelled || c.early {
 		want = 1
 	}
 	await(2*time.Second, func() bool { return len(exs) >= want })
-	await(3*delay+time.Millisecond, func() bool { return len(exs) > maxExecutions(specIdempotent(c.idem), c.a) }) // one more than allowed would show up now
+	if !c.early {
+		await(3*delay+time.Millisecond, func() bool { return len(exs) > maxExecutions(specIdempotent(c.idem), c.a) }) // one more than allowed would show up now
+	}
 	steps := 0
 	for steps < 200 {
 		drain()
@@ -771,6 +778,9 @@ func speccGrid() []speccScn {
 			c.policy = []string{"custom:6:urtutrurun", "down:4.6.1.2.10", "custom:4:urtutrurun"}[(ki+pi)%3]
 			out = append(out, c)
 		}
+		// the result / the end of the context comes while the executor still waits for its ticker
+		out = append(out, speccScn{kind: kind, idem: "1", a: 2, nhosts: 3, ctx: true, early: true, policy: "simple:2", plan: []string{"L0", "C0:ok", "D0"}, okPct: 20, cons: 1})
+		out = append(out, speccScn{kind: kind, idem: "1", a: 2, nhosts: 3, ctx: true, early: true, policy: "simple:2", plan: []string{"L0", "X"}, okPct: 20, cons: 1})
 		// the context is done before the statement is executed
 		out = append(out, speccScn{kind: kind, idem: "1", a: 2, nhosts: 3, ctx: true, pre: true, policy: "simple:2", okPct: 20, cons: 4})
 	}
@@ -779,7 +789,7 @@ func speccGrid() []speccScn {
 
 func genSpecc(r *vh.Rng) speccScn {
 	c := speccScn{kind: []string{"q", "bl", "bu", "bc"}[r.Intn(4)], idem: "1", a: 1 + r.Intn(3), nhosts: 1 + r.Intn(6),
-		cons: consCodes[r.Intn(len(consCodes))], ctx: r.Intn(3) > 0, pre: r.Intn(8) == 0, dl: r.Intn(3) == 0, okPct: []int{0, 15, 30, 60}[r.Intn(4)], xPct: []int{0, 4, 10}[r.Intn(3)]}
+		cons: consCodes[r.Intn(len(consCodes))], ctx: r.Intn(3) > 0, pre: r.Intn(8) == 0, dl: r.Intn(3) == 0, early: r.Intn(6) == 0, okPct: []int{0, 15, 30, 60}[r.Intn(4)], xPct: []int{0, 4, 10}[r.Intn(3)]}
 	if c.kind != "q" {
 		c.idem = strings.Repeat("1", 1+r.Intn(5))
 	}
